@@ -15,7 +15,7 @@ TECHNIQUE = ('property-based testing (Hypothesis) of sources x failure position 
              'producer thread against the consuming loop (simulation kernel); sequence / exception-identity oracle, virtual-time '
              'ticker for loop responsiveness, helper-thread census')
 RULE = ('cases: sources of length 0-6 as list / tuple / range / generator / plain iterator (to_async_iter) or async generator '
-        '(to_sync_iter, loop=None or a fresh idle loop), elements from {0, None, "", False, 1, 1, "x", (), 0.0}, failure at every '
+        '(to_sync_iter, loop=None or a fresh idle loop), elements from {0, None, "", False, 1, 1, "x", (), 0.0, an object equal to everything, an object whose == raises}, failure at every '
         'position or none, producer and consumer step delays from {0, 1/4}, schedules none/sparse/line/pct/walk. '
         'non-trivial: the source is a true iterator / async generator (helper thread in use) and has length >=2 or fails at '
         'position >=1; distinct by case hash')
@@ -80,7 +80,9 @@ def valid(case):
 
 
 def _same_seq(a, b):
-    return len(a) == len(b) and all(type(x) is type(y) and x == y for x, y in zip(a, b))
+    # the source elements are singletons of the harness table or small immutables: identity first
+    return len(a) == len(b) and all(x is y or (type(x) is type(y) and type(x) in (int, float, str, bool, tuple) and x == y)
+                                    for x, y in zip(a, b))
 
 
 def run_case(case):
@@ -128,7 +130,7 @@ def run_case(case):
         cl.append('nontrivial')
     if f is not None:
         cl.append('fails')
-    if any(not e for e in elems):
+    if any((not e) for e in elems if type(e) in (int, float, str, bool, tuple, type(None))):
         cl.append('falsy-element')
     if src.get('delay'):
         cl.append('slow-producer')
